@@ -71,6 +71,8 @@ impl FlushWorker {
 
             let flush_task = tokio::spawn(async move {
                 let _inflight_guard = inflight_guard;
+                #[cfg(sneldb_verif)]
+                crate::verif_hooks::step_async("flush.dequeued").await;
                 let was_empty = memtable.is_empty();
 
                 if tracing::enabled!(tracing::Level::INFO) {
@@ -99,6 +101,8 @@ impl FlushWorker {
                     Arc::clone(&flush_coord_lock),
                 );
                 let flush_result = flusher.flush().await;
+                #[cfg(sneldb_verif)]
+                crate::verif_hooks::step_async("flush.written").await;
 
                 match &flush_result {
                     Err(e) => {
@@ -148,6 +152,8 @@ impl FlushWorker {
                             )
                             .await;
 
+                        #[cfg(sneldb_verif)]
+                        crate::verif_hooks::step_async("flush.verified").await;
                         if !is_queryable {
                             warn!(
                                 target: "sneldb::flush",
@@ -176,6 +182,8 @@ impl FlushWorker {
                             }
                         }
 
+                        #[cfg(sneldb_verif)]
+                        crate::verif_hooks::step_async("flush.published").await;
                         // Mark as verified and clear passive buffer
                         if track_lifecycle {
                             lifecycle.mark_verified(segment_id).await;
@@ -202,6 +210,8 @@ impl FlushWorker {
                             }
                         }
 
+                        #[cfg(sneldb_verif)]
+                        crate::verif_hooks::step_async("flush.passive_cleared").await;
                         // Note: Passive buffer is now empty and will be filtered out by
                         // PassiveBufferSet::non_empty() in subsequent queries
 
@@ -216,6 +226,8 @@ impl FlushWorker {
                         }
                         let cleaner = WalCleaner::new(shard_id);
                         cleaner.cleanup_up_to(segment_id + 1);
+                        #[cfg(sneldb_verif)]
+                        crate::verif_hooks::step_async("flush.wal_cleaned").await;
                     }
                 }
 
@@ -241,6 +253,8 @@ impl FlushWorker {
                 }
             };
 
+            #[cfg(sneldb_verif)]
+            crate::verif_hooks::step_async("flush.task_done").await;
             self.flush_progress.mark_completed(flush_id);
 
             // Always send completion signal, even on error/panic
